@@ -484,4 +484,85 @@ theorem threeSum_isTotallyUnimodular {m m' n n' : Type*} (A : Matrix m n ℤ) (J
     simp only [Fintype.card_fin]
     exact signRange_mul (by rw [pow_two]; exact signRange_mul hdT hdT) (by simpa using hdT)
 
+/-! ### The same statement for list matrices -/
+
+/-- the `3 × 3` matrix `N = [[γ, δ, 0],[q00, q01, α],[q10, q11, β]]` as a block matrix -/
+theorem toMx_threeN (γ δ q00 q01 q10 q11 α β : Int) :
+    (toMx 3 3 [[γ, δ, 0], [q00, q01, α], [q10, q11, β]]).submatrix
+        (Sum.elim (fun _ : Unit => (0 : Fin 3)) (fun a : Fin 2 => a.succ))
+        (Sum.elim (fun b : Fin 2 => b.castSucc) (fun _ : Unit => (2 : Fin 3))) =
+      fromBlocks (replicateRow Unit ![γ, δ]) 0 !![q00, q01; q10, q11] (replicateCol Unit ![α, β]) := by
+  ext i j
+  rcases i with i | i <;> rcases j with j | j <;> (try fin_cases i) <;> (try fin_cases j) <;> rfl
+
+/-- 3-sums of list matrices.  `rows1, cols1` (`rows2, cols2`) are the lines of `M1` (`M2`) that survive; `ri rj` are
+the special rows and `cz` the special column of `M1`, `rg` the special row and `ck2 cl2` the special columns of `M2`;
+`q` is any `2 × 2` matrix for which `N` is totally unimodular. -/
+theorem isTU_threeSum_lists {m1 n1 m2 n2 : Nat} (M1 M2 : Mat) (hTU1 : isTU m1 n1 M1 = true)
+    (hTU2 : isTU m2 n2 M2 = true) (rows1 cols1 rows2 cols2 : List Nat)
+    (hr1 : ∀ x ∈ rows1, x < m1) (hc1 : ∀ x ∈ cols1, x < n1) (hr2 : ∀ x ∈ rows2, x < m2) (hc2 : ∀ x ∈ cols2, x < n2)
+    (ri rj cz rg ck2 cl2 : Nat) (hri : ri < m1) (hrj : rj < m1) (hcz : cz < n1) (hrg : rg < m2) (hck2 : ck2 < n2)
+    (hcl2 : cl2 < n2)
+    (hα : ent M1 ri cz = 1 ∨ ent M1 ri cz = -1) (hβ : ent M1 rj cz = 1 ∨ ent M1 rj cz = -1)
+    (hγ : ent M2 rg ck2 = 1 ∨ ent M2 rg ck2 = -1) (hδ : ent M2 rg cl2 = 1 ∨ ent M2 rg cl2 = -1)
+    (hz0 : ∀ x ∈ rows1, ent M1 x cz = 0) (hg0 : ∀ y ∈ cols2, ent M2 rg y = 0)
+    (q00 q01 q10 q11 : Int) (hdet : q00 * q11 - q01 * q10 ≠ 0)
+    (hN : isTU 3 3 [[ent M2 rg ck2, ent M2 rg cl2, 0], [q00, q01, ent M1 ri cz], [q10, q11, ent M1 rj cz]] = true) :
+    isTU (rows1.length + rows2.length) (cols1.length + cols2.length)
+      (blockMat rows1.length cols1.length rows2.length cols2.length
+        (fun i j => ent M1 (rows1.getD i 0) (cols1.getD j 0))
+        (fun _ _ => 0)
+        (fun i j =>
+          ent M2 (rows2.getD i 0) ck2 *
+              ((q00 * q11 - q01 * q10) * q11 * ent M1 ri (cols1.getD j 0) +
+                -((q00 * q11 - q01 * q10) * q01) * ent M1 rj (cols1.getD j 0)) +
+            ent M2 (rows2.getD i 0) cl2 *
+              (-((q00 * q11 - q01 * q10) * q10) * ent M1 ri (cols1.getD j 0) +
+                (q00 * q11 - q01 * q10) * q00 * ent M1 rj (cols1.getD j 0)))
+        (fun i j => ent M2 (rows2.getD i 0) (cols2.getD j 0))) = true := by
+  rw [isTU_iff_submatrix_equiv _ finSumFinEquiv finSumFinEquiv, toMx_blockMat]
+  rw [isTU_iff] at hTU1 hTU2 hN
+  let fR1 : Fin rows1.length → Fin m1 := fun i => ⟨rows1.getD i 0, getD_lt_of_forall hr1 i.isLt⟩
+  let fC1 : Fin cols1.length → Fin n1 := fun i => ⟨cols1.getD i 0, getD_lt_of_forall hc1 i.isLt⟩
+  let fR2 : Fin rows2.length → Fin m2 := fun i => ⟨rows2.getD i 0, getD_lt_of_forall hr2 i.isLt⟩
+  let fC2 : Fin cols2.length → Fin n2 := fun i => ⟨cols2.getD i 0, getD_lt_of_forall hc2 i.isLt⟩
+  have hN' := hN.submatrix (Sum.elim (fun _ : Unit => (0 : Fin 3)) (fun a : Fin 2 => a.succ))
+    (Sum.elim (fun b : Fin 2 => b.castSucc) (fun _ : Unit => (2 : Fin 3)))
+  rw [toMx_threeN] at hN'
+  have key := threeSum_isTotallyUnimodular
+    (Matrix.of fun (i : Fin rows1.length) (j : Fin cols1.length) => ent M1 (rows1.getD i 0) (cols1.getD j 0))
+    (Matrix.of fun (a : Fin 2) (j : Fin cols1.length) => ent M1 (if a = 0 then ri else rj) (cols1.getD j 0))
+    ![ent M1 ri cz, ent M1 rj cz] ![ent M2 rg ck2, ent M2 rg cl2]
+    (Matrix.of fun (i : Fin rows2.length) (b : Fin 2) => ent M2 (rows2.getD i 0) (if b = 0 then ck2 else cl2))
+    (Matrix.of fun (i : Fin rows2.length) (j : Fin cols2.length) => ent M2 (rows2.getD i 0) (cols2.getD j 0))
+    !![q00, q01; q10, q11]
+    (by intro a; fin_cases a <;> simpa) (by intro b; fin_cases b <;> simpa)
+    (by rw [det_fin_two_of]; exact hdet) ?_ ?_ hN'
+  · convert key using 1
+    ext i j
+    rcases i with i | i <;> rcases j with j | j <;>
+      simp [Matrix.mul_apply, Fin.sum_univ_two, det_fin_two_of, adjugate_fin_two_of]
+    ring
+  · have := hTU1.submatrix (Sum.elim fR1 (fun a : Fin 2 => if a = 0 then ⟨ri, hri⟩ else ⟨rj, hrj⟩))
+      (Sum.elim fC1 (fun _ : Unit => ⟨cz, hcz⟩))
+    convert this using 1
+    ext i j
+    rcases i with i | i <;> rcases j with j | j
+    · simp [toMx, fR1, fC1]
+    · simp [toMx, fR1, fC1]
+      exact (hz0 _ (List.getElem_mem i.isLt)).symm
+    · by_cases h : i = 0 <;> simp [h, toMx, fC1]
+    · have hi : i = 0 ∨ i = 1 := by omega
+      rcases hi with rfl | rfl <;> rfl
+  · have := hTU2.submatrix (Sum.elim (fun _ : Unit => ⟨rg, hrg⟩) fR2)
+      (Sum.elim (fun b : Fin 2 => if b = 0 then ⟨ck2, hck2⟩ else ⟨cl2, hcl2⟩) fC2)
+    convert this using 1
+    ext i j
+    rcases i with i | i <;> rcases j with j | j
+    · fin_cases j <;> simp [toMx]
+    · simp [toMx, fR2, fC2]
+      exact (hg0 _ (List.getElem_mem j.isLt)).symm
+    · fin_cases j <;> simp [toMx, fR2]
+    · simp [toMx, fR2, fC2]
+
 end Cmr
